@@ -67,6 +67,19 @@ class Iter2V:
         self.sentinel = sentinel
 
 
+class _StopLazy(Exception):
+    pass
+
+
+class LazyV:
+    """A lazy iterator pipeline (map / takewhile over an endless or lazy
+    source): *step(interp)* gives the next element or raises _StopLazy; the
+    consuming loop drives it element by element."""
+
+    def __init__(self, step):
+        self.step = step
+
+
 class CtxGenV(GenV):
     """What a ``@contextlib.contextmanager`` function returns: entered by
     running the generator to its yield, the ``with`` body runs there (an
@@ -528,10 +541,26 @@ class Interp:
         import re as _re
         base = name.rsplit('.', 1)[-1]
         if not (name.startswith('re.') and base in (
-                'sub', 'subn', 'findall', 'split')):
+                'sub', 'subn', 'findall', 'split', 'finditer')):
             return None
+        if self.guide is not None and any(isinstance(a, T) for a in args):
+            # following one input: a str-valued term is what it evaluates to
+            from .termeval import CannotEval, Raised
+            args = list(args)
+            for i_, a_ in enumerate(args):
+                if isinstance(a_, T):
+                    try:
+                        got = self.guide(a_)
+                    except (CannotEval, Raised):
+                        return None
+                    if not isinstance(got, (str, bytes, int)):
+                        return None
+                    args[i_] = K(got)
         if not args or not all(isinstance(a, (K, RegexV)) for a in args) \
                 or not all(isinstance(v, K) for v in kwargs.values()):
+            return None
+        if base == 'finditer' and not (
+                len(args) == 2 and isinstance(args[0], RegexV)):
             return None
         rx = args[0]
         try:
@@ -554,6 +583,9 @@ class Interp:
         except (IndexError, KeyError) as e:
             raise AbsRaise(T('exc', type(e).__name__))
         from . import models
+        if base == 'finditer':
+            from .rxmodel import _const_match
+            return IterV([_const_match(m_, args[1]) for m_ in r])
         return models.from_python(r)
 
     def may_raise(self, name, t):
@@ -1390,8 +1422,9 @@ class Interp:
             it = self.call(self.get_attr(it, '__iter__'), [])
         if isinstance(it, Obj) and it.cls is not None and isinstance(
                 it.cls.lookup('__next__')[0], FuncRef):
-            n = 0
+            n = forked = 0
             while True:
+                before = len(self.choices)
                 try:
                     v = self.call(self.get_attr(it, '__next__'), [])
                 except AbsRaise as r:
@@ -1402,6 +1435,12 @@ class Interp:
                         return
                     raise
                 n += 1
+                if len(self.choices) > before:
+                    # whether to stop was an open question: bounded like a
+                    # ``while`` over an unknown condition
+                    forked += 1
+                    if forked > self.world.loop_bound:
+                        raise _PathCut()
                 if n > max(4096, self.world.unroll_bound):
                     raise Inexact('iterator of %s did not stop' %
                                   it.cls.name)
@@ -1425,6 +1464,24 @@ class Interp:
                     continue
             self.exec_block(s.orelse, fr)
             return
+        if isinstance(it, LazyV):
+            n = 0
+            while True:
+                try:
+                    v = it.step(self)
+                except _StopLazy:
+                    self.exec_block(s.orelse, fr)
+                    return
+                n += 1
+                if n > max(self.world.loop_bound, 8):
+                    raise _PathCut()
+                self.assign(s.target, v, fr)
+                try:
+                    self.exec_block(s.body, fr)
+                except _Break:
+                    return
+                except _Continue:
+                    continue
         if isinstance(it, Iter2V):
             from . import models
             n = 0
@@ -1621,6 +1678,15 @@ class Interp:
             out = []
             self.run_generator(it, out.append)
             return out
+        if isinstance(it, LazyV):
+            out = []
+            while True:
+                try:
+                    out.append(it.step(self))
+                except _StopLazy:
+                    return out
+                if len(out) > max(self.world.loop_bound, 8):
+                    raise _PathCut()
         if isinstance(it, Iter2V):
             from . import models
             out = []
